@@ -31,7 +31,7 @@ func runC02(c *CheckCtx) {
 			c.note("exempt from the C02 frame: " + fnName(f) + " (registration-time update of the _PACKAGES_ map by the embedder, not a builtin/special form)")
 			continue
 		}
-		jobs = append(jobs, &Job{Fn: f, PanicMode: "ignore", Frame: true, IsRoot: func(fn *ssa.Function) bool { return rootSet[fn] && fn.Parent() == nil }})
+		jobs = append(jobs, &Job{Fn: f, PanicMode: "ignore", Frame: true, NoUserInv: true, NoContracts: true, IsRoot: func(fn *ssa.Function) bool { return rootSet[fn] && fn.Parent() == nil }})
 	}
 	c.runJobs(jobs, func(o *Obligation) bool { return o.Kind == "frame/store" })
 	c.assumptions["reference objects (Atom.Val, Env.data, Future fields, tokenReader) are not lisp values and are exempt by the property statement"] = true
@@ -215,4 +215,38 @@ func runC20(c *CheckCtx) {
 	c.assumptions["reflect abstracted: Type.NumIn/NumOut/IsVariadic as uninterpreted signature facts; Value.Call panics before invoking unless every argument is assignable (ghost `assignable`), then invokes once (ghost `invoked`); the called Go function may panic"] = true
 	c.assumptions["runtime.FuncForPC(...).Name() contains a dot (\"pkgpath.func\")"] = true
 	c.assumptions["name derivation (lower case, '_' -> '-') relies on strings.ToLower/Replace and is not verified"] = true
+}
+
+// ---------------------------------------------------------------------------
+// C09: atom operations are atomic, never lose updates and never hang (lock discipline)
+
+func concurrentFuncs(c *CheckCtx) []*ssa.Function {
+	return c.funcsIn("/lib/concurrent")
+}
+
+func init() {
+	register(&Property{
+		ID: "C09", Level: "other", Technique: "contract-based deductive verification of the lock discipline: ghost lockset; obligations lock/held-for-access (every access to Atom.Val under Atom.Mutex in the right mode), lock/balance, lock/no-self-deadlock, lock/no-call-while-held (no lisp-running call while a lock taken by the function is held), plus sequential critical-section contracts of reset!/swap!/deref; atomicity itself by the standard lock argument (not mechanised)",
+		DesignRef: "DESIGN.md §4 C09",
+		Explain:   "partial: the per-thread obligations that make deref/reset!/swap! critical sections are proved; 'as if one at a time, consistent with real time' follows from them by the lock-atomicity meta-argument M-LOCK; no interleaving semantics in the verifier",
+		Run:       runC09,
+	})
+}
+
+func runC09(c *CheckCtx) {
+	var jobs []*Job
+	for _, f := range concurrentFuncs(c) {
+		jobs = append(jobs, &Job{Fn: f, PanicMode: "ignore", LockMode: true})
+	}
+	c.note("Atom.LispPrint reads Atom.Val without the lock; printing is not one of the operations of the C09 statement (deref/reset!/swap!), so that access is reported under C11 (data races), not here")
+	c.runJobs(jobs, func(o *Obligation) bool {
+		if strings.HasPrefix(o.Kind, "lock/") {
+			return !strings.Contains(o.Fn, "LispPrint")
+		}
+		// functional contracts of the atom operations only
+		return (o.Kind == "post" || o.Kind == "pre") && (strings.Contains(o.Fn, "Atom") || strings.Contains(o.Fn, "_BANG"))
+	})
+	c.assumptions["M-LOCK: operations whose accesses to the protected field all happen inside one critical section of a single mutex are linearizable (meta-argument, not mechanised)"] = true
+	c.assumptions["sync.RWMutex modelled as a ghost lockset (0 free, 1 read, 2 write), not re-entrant"] = true
+	c.assumptions["gensym / memoize (lisp source in header-coreextended.lisp) are outside the verifier"] = true
 }
